@@ -193,6 +193,15 @@ def check_padcrop2d(case, ctx):
     cy, cx = (g // 2 - s // 2 for s, g in zip(small, big))
     bucket = 'crop_center:' + ','.join('%s->%s' % (('even', 'odd')[g % 2], ('even', 'odd')[s % 2]) for s, g in zip(small, big))
     U.check_equal(cr, bmark[cy:cy + small[0], cx:cx + small[1]], bucket, 'crop %s -> %s' % (big, small))
+    # an integer out_shape means (k, k) whatever the shape of the input (a_ and b_ are independent draws, so amark is usually not square)
+    amark = _marker([max(x, 1) for x in a_])
+    k = int(min(min(a_), min(b_)))
+    crk = ctx.call(crop_center, amark, k)
+    ky, kx = (g // 2 - k // 2 for g in amark.shape)
+    U.check_equal(crk, amark[ky:ky + k, kx:kx + k], 'crop_center:scalar-out_shape', 'crop %s -> %d (integer out_shape)' % (list(amark.shape), k))
+    if via in ('wavefront', 'wavefront-copy'):
+        wk = ctx.call(Wavefront(amark.astype(float), 0.5, 1.0).crop, k, inplace=(via == 'wavefront')).data
+        U.check_equal(wk, amark[ky:ky + k, kx:kx + k], 'Wavefront.crop:scalar-out_shape', 'Wavefront.crop(%d) of %s' % (k, list(amark.shape)))
 
 
 # ---- coordinate vectors / grids ------------------------------------------------------------------
@@ -460,6 +469,63 @@ def check_ifg_pad(case, ctx):
         offy, offx = oy // 2 - ny // 2, ox // 2 - nx // 2
         U.check_equal(d[offy:offy + ny, offx:offx + nx], z, 'Interferogram.pad:placement', 'the origin sample of the data did not move to the origin sample of the padded array')
 
+# ---- Interferogram coordinates after an off-centre crop + recenter ---------------------------------------------------------
+def strat_ifg_crop(tier):
+    ax = U.axis_len({'quick': 16, 'thorough': 40}[tier], 2)
+    cut = st.integers(0, 6)
+    return st.fixed_dictionaries({'shape': st.tuples(ax, ax).map(list), 'dx': st.sampled_from([1.0, 0.5, 0.2, 2.5]),
+                                  'touch': st.sampled_from(['none', 'x', 'r', 'x-and-r']),
+                                  'cuts': st.tuples(cut, cut, cut, cut).map(list),      # rows removed top / bottom, columns removed left / right
+                                  'latcal_first': st.booleans(), 'twice': st.booleans()})
+
+
+def check_ifg_crop(case, ctx):
+    """an interferogram is masked off-centre, cropped to the valid rectangle and recentred: x, y have the data's shape and their exact zero on sample n//2."""
+    import warnings
+    from prysm.interferogram import Interferogram
+    ny, nx = case['shape']
+    dx = case['dx']
+    t0, b0, l0, r0 = case['cuts']
+    # keep at least one row / column
+    t0 = min(t0, ny - 1)
+    b0 = min(b0, ny - 1 - t0)
+    l0 = min(l0, nx - 1)
+    r0 = min(r0, nx - 1 - l0)
+    z = _marker((ny, nx)).astype(float)
+    keep = np.zeros((ny, nx), dtype=bool)
+    keep[t0:ny - b0, l0:nx - r0] = True
+    with warnings.catch_warnings():
+        warnings.simplefilter('ignore')
+        i = Interferogram(z.copy(), dx=dx) if not case['latcal_first'] else Interferogram(z.copy())
+        if case['latcal_first']:
+            ctx.call(i.latcal, dx)
+        t = case['touch']
+        if 'x' in t:
+            ctx.call(getattr, i, 'x')
+        if 'r' in t:
+            ctx.call(getattr, i, 'r')
+        ctx.call(i.mask, keep)
+        ctx.call(i.crop)
+        ctx.call(i.recenter)
+        if case.get('twice'):
+            ctx.call(i.recenter)
+        asym = (t0 != b0) or (l0 != r0)
+        ctx.nt(asym and t != 'none')
+        ctx.label('touch:' + t, 'asymmetric' if asym else 'symmetric', 'origin-cropped-away' if (t0 > ny // 2 or ny - b0 <= ny // 2 or l0 > nx // 2 or nx - r0 <= nx // 2) else 'origin-kept')
+        d = np.asarray(i.data)
+        oy, ox = ny - t0 - b0, nx - l0 - r0
+        U.check_shape(d, (oy, ox), 'Interferogram.crop:data')
+        U.check_equal(d, z[t0:ny - b0, l0:nx - r0], 'Interferogram.crop:data', 'crop() did not keep exactly the bounding rectangle of the valid samples')
+        x, y = np.asarray(ctx.call(getattr, i, 'x')), np.asarray(ctx.call(getattr, i, 'y'))
+        U.check_shape(x, d.shape, 'Interferogram.recenter:x-shape', 'x after crop+recenter (coordinates touched before: %s)' % t)
+        U.check_shape(y, d.shape, 'Interferogram.recenter:y-shape', 'y after crop+recenter (coordinates touched before: %s)' % t)
+        U.check_close(x, np.broadcast_to(U.cvec(ox) * dx, d.shape), 1e-12, 'Interferogram.recenter:x', 'x grid after crop+recenter', atol=1e-12 * dx * nx)
+        U.check_close(y, np.broadcast_to((U.cvec(oy) * dx)[:, None], d.shape), 1e-12, 'Interferogram.recenter:y', 'y grid after crop+recenter', atol=1e-12 * dx * ny)
+        ctx.require(x[0, ox // 2] == 0 and y[oy // 2, 0] == 0, 'Interferogram.recenter:zero', 'no exact zero at n//2 after crop+recenter')
+        r = np.asarray(ctx.call(getattr, i, 'r'))
+        U.check_shape(r, d.shape, 'Interferogram.recenter:r-shape')
+        ctx.require(r[oy // 2, ox // 2] == 0 and int(np.argmin(r)) == (oy // 2) * ox + ox // 2, 'Interferogram.recenter:r', 'radial grid after recenter does not have its zero on the origin sample')
+
 
 CLAUSES = [
     EnumClause('pad_axis', enum_pad, check_pad_axis),
@@ -470,5 +536,6 @@ CLAUSES = [
     HypClause('centroid2', strat_centroid2, check_centroid2, examples={'quick': 300, 'thorough': 3000}),
     HypClause('grids_not_aliased', strat_fresh, check_fresh, examples={'quick': 300, 'thorough': 2000}),
     HypClause('interferogram_pad_coordinates', strat_ifg_pad, check_ifg_pad, examples={'quick': 250, 'thorough': 1500}),
+    HypClause('interferogram_crop_recenter', strat_ifg_crop, check_ifg_crop, examples={'quick': 300, 'thorough': 2000}),
     HypClause('slices_follow_coordinates', strat_slices_hist, check_slices_hist, examples={'quick': 300, 'thorough': 2000}),
 ]
